@@ -40,7 +40,7 @@ void h_result_error(void) {
     for (i = 0; i < 6; i++) if ((size_t) i < nl) __CPROVER_assert(out[i] == num[i], "C18: response starts with the code");
     __CPROVER_assert(out[nl] == ',' && out[nl + 1] == '"' && outn >= nl + 3 && out[outn - 1] == '"', "C18: code, comma, quoted string");
     /* source = description [; text] */
-    char src[40]; size_t sl = 0; for (i = 0; desc[i]; i++) src[sl++] = desc[i];
+    char src[48]; size_t sl = 0; for (i = 0; desc[i]; i++) src[sl++] = desc[i];
     if (e.device_dependent_info) { src[sl++] = ';'; for (i = 0; i < tl; i++) src[sl++] = text[i]; }
     /* unescape the quoted content and compare with the source prefix */
     size_t p = nl + 2, k = 0, esc = 0; int bad = 0;
